@@ -54,3 +54,31 @@ Example C09_example :
                               [BVal 7; BRef 8]) in
   visited gen_visit_table e = [3; 5; 6; 6; 8]%N /\ refs e = [3; 5; 6; 6; 8]%N.
 Proof. vm_compute. split; reflexivity. Qed.
+
+(* ---- slots that hold other slots by value or refer to slot variables through std::ref (NestModel.v) ---- *)
+Require NestSpec NestProofs.
+
+(* a slot stored inside an expression has the slot made from the expression as parent, so its invalidation reaches it *)
+Theorem C09_nested_value_child_reports_to_holder : NestSpec.S_nest_value_child_parent.
+Proof. exact NestProofs.nest_value_child_parent. Qed.
+Print Assumptions C09_nested_value_child_reports_to_holder.
+
+(* each trackable holds exactly one armed callback entry per reference held by a functor, and nothing else *)
+Theorem C09_nested_tied_to_every_trackable : NestSpec.S_nest_regs_exact.
+Proof. exact NestProofs.nest_regs_exact. Qed.
+Print Assumptions C09_nested_tied_to_every_trackable.
+
+(* destroying any referenced trackable invalidates the slot, through any depth of by-value nesting *)
+Theorem C09_nested_trackable_death_invalidates : NestSpec.S_nest_tdel.
+Proof. exact NestProofs.nest_tdel. Qed.
+Print Assumptions C09_nested_trackable_death_invalidates.
+
+(* ... and through std::ref: the slot that adopted the referenced slot variable is invalidated with it *)
+Theorem C09_nested_adopter_invalidated : NestSpec.S_nest_tdel_adopter.
+Proof. exact NestProofs.nest_tdel_adopter. Qed.
+Print Assumptions C09_nested_adopter_invalidated.
+
+(* destroying the slot first leaves no callback entry and no parent_ denoting any slot_rep that lived in it *)
+Theorem C09_nested_destroyed_slot_leaves_no_trace : NestSpec.S_nest_sdel_no_trace.
+Proof. exact NestProofs.nest_sdel_no_trace. Qed.
+Print Assumptions C09_nested_destroyed_slot_leaves_no_trace.
